@@ -501,3 +501,167 @@ def det_level_state(repo, tier="quick"):
                                       "start from 0 again, so they name unrelated nodes of the next level"))
     need(obs, "anchor vanished: no attribute of MoleculeResolver is modified in place while a level is resolved (self.molecule is expected)")
     return obs
+
+
+# ---------------------------------------------------------------------------------------------------------------------
+# IDX.branch-stop (C04): everything that may stand between a node and the brace that closes its branch is looked past
+# ---------------------------------------------------------------------------------------------------------------------
+
+def _regex_source(repo, fi, node, depth=0):
+    """The pattern text of a regular expression object or literal used at `node`: literals, re.compile(<text>), names assigned
+    once (module level or in the function), entries of a module-level dict of patterns."""
+    if depth > 6 or node is None:
+        return None
+    if isinstance(node, ast.Constant) and isinstance(node.value, str):
+        return node.value
+    if isinstance(node, ast.Call) and node.args and (
+            (isinstance(node.func, ast.Attribute) and node.func.attr == "compile") or (isinstance(node.func, ast.Name) and node.func.id == "compile")):
+        return _regex_source(repo, fi, node.args[0], depth + 1)
+    tree = getattr(fi.module, "tree", None)
+
+    def assigned(name):
+        vals = []
+        for sub in ast.walk(fi.node):
+            if isinstance(sub, ast.Assign) and any(isinstance(t, ast.Name) and t.id == name for t in sub.targets):
+                vals.append(sub.value)
+        if not vals and tree is not None:
+            for st in tree.body:
+                if isinstance(st, ast.Assign) and any(isinstance(t, ast.Name) and t.id == name for t in st.targets):
+                    vals.append(st.value)
+        return vals[0] if len(vals) == 1 else None
+    if isinstance(node, ast.Name):
+        return _regex_source(repo, fi, assigned(node.id), depth + 1)
+    if isinstance(node, ast.Subscript) and isinstance(node.value, ast.Name) and isinstance(node.slice, ast.Constant):
+        table = assigned(node.value.id)
+        if isinstance(table, ast.Dict):
+            for k, v in zip(table.keys, table.values):
+                if isinstance(k, ast.Constant) and k.value == node.slice.value:
+                    return _regex_source(repo, fi, v, depth + 1)
+    return None
+
+
+def _class_before_brace(rx):
+    """For a pattern of the shape  <class>* \\)  (optionally anchored / grouped) the set of characters of the class; None for any
+    other shape."""
+    import re
+    try:
+        from re import _parser as sre_parse
+        from re import _constants as C
+    except ImportError:                     # Python < 3.11
+        import sre_parse
+        import sre_constants as C
+    try:
+        p = list(sre_parse.parse(rx))
+    except re.error:
+        return None
+    # strip groups and leading anchors
+    flat = []
+
+    def walk(items):
+        for op, av in items:
+            if op is C.SUBPATTERN:
+                walk(list(av[3]))
+            elif op is C.AT:
+                continue
+            else:
+                flat.append((op, av))
+    walk(p)
+    if len(flat) < 1 or flat[-1] != (C.LITERAL, ord(")")):
+        return None
+    allowed = set()
+    for op, av in flat[:-1]:
+        if op not in (C.MAX_REPEAT, C.MIN_REPEAT) or av[0] != 0:
+            return None
+        inner = list(av[2])
+        if len(inner) != 1:
+            return None
+        iop, iav = inner[0]
+        items = iav if iop is C.IN else [(iop, iav)]
+        for kop, kav in items:
+            if kop is C.LITERAL:
+                allowed.add(chr(kav))
+            elif kop is C.RANGE:
+                allowed |= {chr(c) for c in range(kav[0], kav[1] + 1)}
+            elif kop is C.CATEGORY and kav is C.CATEGORY_DIGIT:
+                allowed |= set("0123456789")
+            elif kop is C.NEGATE or kop is C.ANY:
+                return None
+            else:
+                return None
+    return allowed
+
+
+def idx_branch_stop(repo, tier="quick"):
+    """A node is the last one of its branch when the closing brace comes before the next node.  Between the node and that brace the
+    grammar allows ring markers (digits, `%nn`), a bond order symbol in front of a marker, and a multiplier `|n`.  A test that
+    looks past only some of these leaves the anchor un-popped for the others: the next node is silently attached inside the
+    branch."""
+    import json
+    import os
+    from ..report import VERIF
+    from .common import guards_of
+    oid = "IDX.branch-stop"
+    fi = repo.function("read_cgsmiles:read_cgsmiles")
+    fl, cfg = fi.flow, fi.cfg
+    with open(os.path.join(VERIF, "spec", "grammar.json")) as fh:
+        symbols = set(json.load(fh)["order_symbols"])
+    required = set("0123456789") | {"%", "|"} | symbols
+    pops = [(call, nid) for call, nid in fl.calls()
+            if isinstance(call.func, ast.Attribute) and call.func.attr == "pop" and isinstance(call.func.value, ast.Name) and "anchor" in call.func.value.id]
+    need(pops, "anchor vanished: no pop of the branch anchor stack in read_cgsmiles", fi)
+    obs = []
+    for call, nid in pops:
+        tests = guards_of(fi, nid)
+        names = set()
+        exprs = []
+        for t, pol, g in tests:
+            exprs.append(t)
+            names |= _names(t)
+        # the values of the guard variables
+        values = list(exprs)
+        for d in fl.defs:
+            if d.var in names and d.kind == "assign" and d.value is not None:
+                values.append(d.value)
+        verdict = None
+        for v in values:
+            for sub in ast.walk(v):
+                if isinstance(sub, ast.Compare) and len(sub.ops) == 1 and isinstance(sub.ops[0], (ast.Gt, ast.Lt, ast.GtE, ast.LtE)):
+                    sides = [sub.left, sub.comparators[0]]
+                    for i, sd in enumerate(sides):
+                        if isinstance(sd, ast.Name):
+                            dv = [d.value for d in fl.defs if d.var == sd.id and d.kind == "assign" and d.value is not None]
+                            if len(dv) == 1:
+                                sides[i] = dv[0]
+                    if all(isinstance(s, ast.Call) and isinstance(s.func, ast.Name) and "find_next" in s.func.id for s in sides):
+                        verdict = verdict or ("ok", sub, "position of the next `)` compared with the position of the next `[`")
+                if isinstance(sub, ast.Call) and isinstance(sub.func, ast.Attribute) and sub.func.attr in ("match", "fullmatch", "search"):
+                    recv = sub.func.value
+                    src = None
+                    if isinstance(recv, ast.Name) and recv.id == "re" and sub.args:
+                        src = _regex_source(repo, fi, sub.args[0])
+                    else:
+                        src = _regex_source(repo, fi, recv)
+                    if src is None:
+                        verdict = ("?", sub, "regular expression whose text the rule cannot find")
+                        continue
+                    allowed = _class_before_brace(src)
+                    if allowed is None:
+                        verdict = ("?", sub, "regular expression %r is not of the shape <class>*\\)" % src)
+                        continue
+                    missing = sorted(required - allowed)
+                    if missing:
+                        verdict = ("bad", sub, "regular expression %r does not look past %s" % (src, " ".join(missing)))
+                    else:
+                        verdict = verdict if verdict and verdict[0] == "bad" else ("ok", sub, "regular expression %r looks past digits, %%, |, and every order symbol" % src)
+        if verdict is None:
+            obs.append(ob_undecided(oid, fi, call, construct="guard of %s.pop()" % call.func.value.id, instance="branch-stop",
+                                    reason="the test that decides whether a branch ends here is neither the comparison of two scans nor a regular expression"))
+        elif verdict[0] == "ok":
+            obs.append(ob_ok(oid, fi, verdict[1], construct=verdict[2], instance="branch-stop", reason="ring markers, their order symbols and a multiplier between the node and the brace are looked past"))
+        elif verdict[0] == "bad":
+            obs.append(ob_fail(oid, fi, verdict[1], construct=verdict[2], instance="branch-stop",
+                               reason="a node followed by one of these characters and then `)` is not recognised as the end of its branch: the anchor is not popped and "
+                                      "what follows the brace is attached inside the branch, without an error"))
+        else:
+            obs.append(ob_undecided(oid, fi, verdict[1], construct=verdict[2], instance="branch-stop", reason="outside the forms the rule knows"))
+    return obs
